@@ -157,6 +157,16 @@ def g_setw(r):
 
 
 def g_poss(r):
+    if r.random() < 0.12:
+        # two conditional operands driven by DIFFERENT conditions with the SAME list of outcomes
+        w = r.choice([1, 2, 4, 8])
+        t, f = const(r, w), const(r, w)
+        regs = r.sample(REGS, 4) if len(REGS) >= 4 else [r.choice(REGS) for _ in range(4)]
+        l1 = "l %d r %s %d r %s %d %s %s" % (w, regs[0], w, regs[1], w, t, f)
+        l2 = "l %d r %s %d r %s %d %s %s" % (w, regs[2], w, regs[3], w, t, f)
+        if r.random() < 0.3:
+            l2 = l1                                  # ... or literally the same operand twice
+        return "poss b %s %d %s %s" % (r.choice(OPS), r.choice([w, w, 2 * w if w < 128 else w]), l1, l2)
     return "poss " + expr(r, r.choice([1, 2, 3]), False, pless=0.4)
 
 
